@@ -49,7 +49,19 @@ EXPECTED_SKELETON = {'iseye': ['if len(_) != 2 or _[0] != _[1]', 'return', 'endi
  'isunitvec': ['return'],
  'iszero': ['return'],
  'iszerovec': ['return'],
- 'rodrigues': ['if base.iszerovec(w)', 'if len(w) == 1', 'return', 'else', 'return', 'endif', 'endif', 'if theta is None', 'endif', 'return'],
+ 'rodrigues': ['if len(w) not in (1, 3)',
+               'raise ValueError',
+               'endif',
+               'if base.iszerovec(w)',
+               'if len(w) == 1',
+               'return',
+               'else',
+               'return',
+               'endif',
+               'endif',
+               'if theta is None',
+               'endif',
+               'return'],
  'skew': ['if len(v) == 1', 'return', 'else', 'if len(v) == 3', 'return', 'else', 'raise ValueError', 'endif', 'endif'],
  'trexp': ['if base.ismatrix(S, (4, 4)) or base.isvector(S, 6)',
            'if base.ismatrix(S, (4, 4))',
@@ -209,7 +221,7 @@ EXPECTED_SKELETON = {'iseye': ['if len(_) != 2 or _[0] != _[1]', 'return', 'endi
             'endif'],
  'unittwist2_norm': ['if iszero(_)', 'else', 'endif', 'return'],
  'unittwist_norm': ['if iszerovec(S, tol=tol)', 'return', 'endif', 'if iszerovec(_)', 'else', 'endif', 'return'],
- 'unitvec_norm': ['if _ > K * _eps', 'return', 'else', 'return', 'endif'],
+ 'unitvec_norm': ['if _ >= K * _eps', 'return', 'else', 'return', 'endif'],
  'vex': ['if s.shape == (3, 3)',
          'if check and (not isskew(s))',
          'raise ValueError',
@@ -223,14 +235,14 @@ EXPECTED_SKELETON = {'iseye': ['if len(_) != 2 or _[0] != _[1]', 'return', 'endi
          'endif',
          'endif']}
 
-# HARD: guard multiset (see _guards) the hand model was written against; (tests, flag parameters)
+# SOFT since round 5 (see EXPECTED_GUARDS_PLAIN for the hard one): guard multiset with single-assignment locals inlined; (tests, flag parameters)
 EXPECTED_GUARDS = {'iseye': (['len(S.shape) != 2 or S.shape[0] != S.shape[1]'], []),
  'isunittwist': (['len(v) == 6'], []),
  'isunittwist2': (['len(v) == 3'], []),
  'isunitvec': ([], []),
  'iszero': ([], []),
  'iszerovec': ([], []),
- 'rodrigues': (['base.iszerovec(w)', 'len(w) == 1', 'theta is None'], []),
+ 'rodrigues': (['base.iszerovec(w)', 'len(w) == 1', 'len(w) not in (1, 3)', 'theta is None'], []),
  'skew': (['len(v) == 1', 'len(v) == 3'], []),
  'trexp': (['base.ismatrix(S, (3, 3))',
             'base.ismatrix(S, (3, 3)) or base.isvector(S, 3)',
@@ -268,7 +280,55 @@ EXPECTED_GUARDS = {'iseye': (['len(S.shape) != 2 or S.shape[0] != S.shape[1]'], 
  'trlog2': (['_ == 0', 'base.iseye(T)', 'ishom2(T, check=check)', 'isrot2(T, check=check)'], ['twist']),
  'unittwist2_norm': (['iszero(S[2])'], []),
  'unittwist_norm': (['iszerovec(S, tol=tol)', 'iszerovec(S[3:6])'], []),
- 'unitvec_norm': (['np.linalg.norm(v) > K * _eps'], []),
+ 'unitvec_norm': (['np.linalg.norm(v) >= K * _eps'], []),
+ 'vex': (['check and (not isskew(s))', 's.shape == (2, 2)', 's.shape == (3, 3)'], [])}
+
+# HARD: the PLAIN guard multiset (no inlining: every local is `_`)
+EXPECTED_GUARDS_PLAIN = {'iseye': (['len(_) != 2 or _[0] != _[1]'], []),
+ 'isunittwist': (['len(v) == 6'], []),
+ 'isunittwist2': (['len(v) == 3'], []),
+ 'isunitvec': ([], []),
+ 'iszero': ([], []),
+ 'iszerovec': ([], []),
+ 'rodrigues': (['base.iszerovec(w)', 'len(w) == 1', 'len(w) not in (1, 3)', 'theta is None'], []),
+ 'skew': (['len(v) == 1', 'len(v) == 3'], []),
+ 'trexp': (['base.ismatrix(S, (3, 3))',
+            'base.ismatrix(S, (3, 3)) or base.isvector(S, 3)',
+            'base.ismatrix(S, (4, 4))',
+            'base.ismatrix(S, (4, 4)) or base.isvector(S, 6)',
+            'base.iszerovec(_)',
+            'check and (not base.isskew(S))',
+            'check and (not base.isskewa(S))',
+            'not base.isunittwist(_)',
+            'theta == 0',
+            'theta is None',
+            'theta is not None and (not base.isunitvec(_))'],
+           []),
+ 'trexp2': (['base.ismatrix(S, (2, 2))',
+             'base.ismatrix(S, (2, 2)) or base.isvector(S, 1)',
+             'base.ismatrix(S, (3, 3))',
+             'base.ismatrix(S, (3, 3)) or base.isvector(S, 3)',
+             'base.iszerovec(_)',
+             'check and (not base.isskew(S))',
+             'check and (not base.isskewa(S))',
+             'not base.isunittwist2(_)',
+             'theta is None',
+             'theta is not None and (not base.isunitvec(_))'],
+            []),
+ 'trlog': (['_ == 0',
+            '_ == 0',
+            'abs(np.trace(_) + 1) < K * _eps',
+            'base.iseye(T)',
+            'base.iseye(_)',
+            'base.iseye(_)',
+            'ishom(T, check=check)',
+            'isrot(T, check=check)',
+            'np.dot(_, _) < 0'],
+           ['twist']),
+ 'trlog2': (['_ == 0', 'base.iseye(T)', 'ishom2(T, check=check)', 'isrot2(T, check=check)'], ['twist']),
+ 'unittwist2_norm': (['iszero(_)'], []),
+ 'unittwist_norm': (['iszerovec(S, tol=tol)', 'iszerovec(_)'], []),
+ 'unitvec_norm': (['_ >= K * _eps'], []),
  'vex': (['check and (not isskew(s))', 's.shape == (2, 2)', 's.shape == (3, 3)'], [])}
 
 # SOFT: callees / numeric constants / raised kinds (and EXPECTED_SKELETON above): a difference only escalates T-num
@@ -278,9 +338,9 @@ EXPECTED_SOFT = {'iseye': {'calls': ['eye', 'len', 'norm'], 'consts': ['0', '1',
  'isunitvec': {'calls': ['abs', 'norm'], 'consts': ['1', '10'], 'raises': []},
  'iszero': {'calls': ['abs'], 'consts': ['10'], 'raises': []},
  'iszerovec': {'calls': ['norm'], 'consts': ['10'], 'raises': []},
- 'rodrigues': {'calls': ['cos', 'eye', 'getvector', 'iszerovec', 'len', 'sin', 'skew', 'unitvec_norm'],
+ 'rodrigues': {'calls': ['ValueError', 'cos', 'eye', 'getvector', 'iszerovec', 'len', 'sin', 'skew', 'unitvec_norm'],
                'consts': ['0', '1', '1.0', '2', '3'],
-               'raises': []},
+               'raises': ['ValueError']},
  'skew': {'calls': ['ValueError', 'array', 'getvector', 'len'], 'consts': ['0', '1', '2', '3'], 'raises': ['ValueError']},
  'trexp': {'calls': ['ValueError',
                      'cos',
@@ -355,7 +415,7 @@ EXPECTED_SOFT = {'iseye': {'calls': ['eye', 'len', 'norm'], 'consts': ['0', '1',
 # threshold sites: function -> (field of the thr record, comparison operator the model uses, which side k*_eps is on)
 SITES = {
     'iszerovec': ('k_zero', 'Lt', 'right'), 'iszero': ('k_iszero', 'Lt', 'right'), 'isunitvec': ('k_isunit', 'Lt', 'right'),
-    'unitvec_norm': ('k_unit', 'Gt', 'right'), 'iseye': ('k_eye', 'Lt', 'right'), 'trlog': ('k_half', 'Lt', 'right'),
+    'unitvec_norm': ('k_unit', 'GtE', 'right'), 'iseye': ('k_eye', 'Lt', 'right'), 'trlog': ('k_half', 'Lt', 'right'),
 }
 # functions that forward / reuse a tolerance: their default must coincide with the field the model uses for them
 SAME_DEFAULT = {'isunittwist': 'k_isunit', 'isunittwist2': 'k_isunit', 'unittwist_norm': 'k_zero'}
@@ -402,13 +462,17 @@ def _skeleton(fn):
     return out
 
 
-def _guards(fn):
+def _guards(fn, inline=True):
     """HARD part of the correspondence: the multiset of guard expressions of a function, independent of how
     statements are arranged.  A guard is the test of an `if`/`elif`, a conditional expression, a `while` or an
     `assert`.  Normalisation: locals that are assigned exactly once by a plain `name = expr` are inlined, the
     remaining locals are alpha-renamed to `_`, integer/float factors of `_eps` become `K` (their VALUES are
     regenerated separately), `K*_eps > a` is rewritten to `a < K*_eps`.  Tests that are a bare parameter name
-    (`twist`) carry no comparison and are recorded as a set, not counted."""
+    (`twist`) carry no comparison and are recorded as a set, not counted.
+    With inline=False every local is `_` (PLAIN form): this is the hard, fail-closed comparison -- operators, constants,
+    boolean structure, directly applied callees and the number of guards; the inlined form additionally says WHICH
+    quantity is tested, but depends on how temporaries are assigned, so a difference there (with equal plain forms) is
+    soft: noted, and the numeric correspondence is escalated."""
     params = {a.arg for a in fn.args.args}
     stores = {}
     for n in ast.walk(fn):
@@ -419,7 +483,7 @@ def _guards(fn):
     for n in ast.walk(fn):
         if isinstance(n, ast.Assign) and len(n.targets) == 1 and isinstance(n.targets[0], ast.Name):
             nm = n.targets[0].id
-            if nm in local and stores[nm] == 1:
+            if inline and nm in local and stores[nm] == 1:
                 single[nm] = n.value
     MIRROR = {ast.Lt: ast.Gt, ast.Gt: ast.Lt, ast.LtE: ast.GtE, ast.GtE: ast.LtE}
 
@@ -526,8 +590,8 @@ def tconst(ctx):
                 raise TConstError(f"modelled function {nm} not found")
     soft_diff = []
     for nm, fn in fns.items():
-        tests, flags = _guards(fn)
-        etests, eflags = EXPECTED_GUARDS[nm]
+        tests, flags = _guards(fn, inline=False)
+        etests, eflags = EXPECTED_GUARDS_PLAIN[nm]
         if tests != etests or flags != eflags:
             extra = [t for t in tests if tests.count(t) > etests.count(t)] + [f for f in flags if f not in eflags]
             missing = [t for t in etests if etests.count(t) > tests.count(t)] + [f for f in eflags if f not in flags]
@@ -536,6 +600,8 @@ def tconst(ctx):
         so = _soft(fn)
         es = dict(EXPECTED_SOFT[nm], skeleton=EXPECTED_SKELETON[nm])
         d = [k for k in ('skeleton', 'calls', 'consts', 'raises') if so[k] != es[k]]
+        if tuple(_guards(fn, inline=True)) != tuple(EXPECTED_GUARDS[nm]):
+            d.append('tested-quantities')
         if d:
             soft_diff.append(f"{nm}: {'/'.join(d)}")
     ctx.stats['tconst:restructured'] = soft_diff
@@ -639,6 +705,7 @@ def mk_samplers(ctx, K):
             ('below-zero-thr', lambda rng: [axis(rng) * rng.uniform(0, kz / 2) * EPS]),
             ('between-zero-and-unit-thr', lambda rng: [axis(rng) * log_uniform(rng, 2 * kz * EPS, ku / 2 * EPS)] if 4 * kz < ku
              else [axis(rng) * 1.0]),
+            ('exactly-at-zero-threshold', lambda rng: [np.eye(3)[rng.integers(3)] * rng.choice([-1.0, 1.0]) * kz * EPS]),
             ('tiny', lambda rng: [axis(rng) * log_uniform(rng, lo_gen, 1e-6)]),
             ('mid', lambda rng: [axis(rng) * log_uniform(rng, 1e-6, math.pi)]),
             ('near-pi', lambda rng: [axis(rng) * (math.pi - log_uniform(rng, 1e-12, 1e-1))]),
@@ -1415,20 +1482,16 @@ def oracle(ctx, K):
         Rt = call('exp3:just-above-zero-threshold', lambda: base.trexp(wv), {'law': 'exp total', 'w_hex': HX(wv)})
         if Rt is not None:
             check('exp3:just-above-zero-threshold:vs-first-order', Rt, np.eye(3) + skew_np(wv), 1.0, {'law': 'exp total', 'w_hex': HX(wv)}, tol=1e-12)
-    # the witness of C03_trexp_so3_total_refuted replayed on the implementation: |w| EXACTLY k_unit*eps is neither
-    # "zero" (norm < k_zero eps) nor normalisable (norm > k_unit eps) when the two thresholds coincide
-    if K['k_zero'] == K['k_unit']:
-        for wv in (np.array([K['k_unit'] * EPS, 0.0, 0.0]), np.array([0.6, 0.8, 0.0]) * K['k_unit'] * EPS):
-            if float(np.linalg.norm(wv)) != K['k_unit'] * EPS:
-                continue
+    # |w| EXACTLY k_zero*eps (neither zero nor normalisable before fix 4dbd011) and its neighbours must be exponentiated
+    for base_v in (np.array([1.0, 0.0, 0.0]), np.array([0.0, 1.0, 0.0]), np.array([0.6, 0.8, 0.0]), np.array([0.0, -0.6, 0.8])):
+        for f_ in (1.0, np.nextafter(1.0, 2.0), np.nextafter(1.0, 0.0)):
+            wv = base_v * (K['k_zero'] * EPS * f_)
             ctx.case(('exp3-at-threshold', tuple(wv)))
-            try:
-                base.trexp(wv)
-            except TypeError as ex:
-                ctx.fail('oracle:exp3:rodrigues:norm-equals-zero-threshold:raises:TypeError',
-                         f"trexp raises TypeError for a rotation vector of norm exactly {K['k_unit']} eps: {ex}", {'law': 'exp total', 'w_hex': HX(wv)})
-            except Exception as ex:
-                ctx.fail(f'oracle:exp3:at-zero-threshold:raises:{type(ex).__name__}', f"trexp raises {ex}", {'w_hex': HX(wv)})
+            rp_ = {'law': 'exp total', 'w_hex': HX(wv), 'norm_over_eps': float(np.linalg.norm(wv)) / EPS}
+            Rt = call('exp3:at-zero-threshold', lambda: base.trexp(wv), rp_)
+            if Rt is not None:
+                check('exp3:at-zero-threshold:vs-first-order', Rt, np.eye(3) + skew_np(wv), 1.0, rp_, tol=1e-12)
+            R2_ = call('exp2:at-zero-threshold', lambda: base.trexp2([wv[0] + wv[1]]), rp_)
     exp3(ctx.n(150, 5000))
     explog3(ctx.n(3000, 100000))
     logexp3(ctx.n(2000, 60000))
